@@ -457,7 +457,7 @@ func init() {
 			}
 			rc.World, rc.Ops = GenerateRun(seed, GenOptions{IngressKeys: []string{"auth-url", "auth-external-placement", "balance-algorithm"},
 				ValueOverrides: map[string][]string{"auth-url": {"svc://s1:8080", "svc://s1:8080/check", "svc://a/s2:8080", "svc://s2:8080", "svc://b/s3:8081", "svc://s1:80", "http://10.9.9.9:8000/auth"}, "auth-external-placement": {"backend", "backend", "frontend"}},
-				GlobalKeys: []string{"auth-proxy", "timeout-client"}, InitialGlobal: initial, AnnChance: 1, OwnHostAlways: true, Sparse: true,
+				GlobalKeys:     []string{"auth-proxy", "timeout-client"}, InitialGlobal: initial, AnnChance: 1, OwnHostAlways: true, Sparse: true,
 				MinOps: mn, MaxOps: mx, QuiesceEvery: pickInt(r, 2, 4), KeysPerRun: 3, W: w, NoForeignClass: true})
 			return rc
 		}})
